@@ -36,6 +36,10 @@ type CaseLock struct {
 	TT   string `json:"tt,omitempty"`
 	Keys []Key  `json:"keys"`
 	Read []bool `json:"read"` // per key: shared mode (RLock / AcquireRead)
+	// OneList, per key (generic locker): the sharded structure is asked through the multi-key entry point with a list of
+	// exactly this one key (Locks / RLocks of one key); a shared key is then also taken through the single-key entry
+	// point while the list call holds it - two readers of one key, one entry
+	OneList []bool `json:"one_list,omitempty"`
 	// Pair: consecutive distinct keys are also held together (under a vkit.Sched).
 	Pair bool `json:"pair,omitempty"`
 	// Multi (generic locker): the pair is taken by one Locks / RLocks call.
@@ -124,6 +128,11 @@ func GenLock(t *rapid.T) CaseLock {
 	}
 	for range c.Keys {
 		c.Read = append(c.Read, rapid.Bool().Draw(t, "read"))
+	}
+	if c.Fam == FamTKeyLock && rapid.Bool().Draw(t, "onelists") {
+		for range c.Keys {
+			c.OneList = append(c.OneList, rapid.Bool().Draw(t, "onelist"))
+		}
 	}
 	c.Pair = rapid.IntRange(0, 2).Draw(t, "pair") == 0
 	if c.Pair && c.Fam == FamTKeyLock {
@@ -330,6 +339,7 @@ func ExecLock(c CaseLock) (res *vkit.Result) {
 		key  Key
 		v    interface{}
 		read bool
+		one  bool
 	}
 	var ks []lk
 	seen := map[string]bool{}
@@ -348,7 +358,7 @@ func ExecLock(c CaseLock) (res *vkit.Result) {
 			res.Skip("duplicate-key")
 		default:
 			seen[keyID(k)] = true
-			ks = append(ks, lk{k, v, i < len(c.Read) && c.Read[i]})
+			ks = append(ks, lk{k, v, i < len(c.Read) && c.Read[i], i < len(c.OneList) && c.OneList[i]})
 		}
 	}
 	mode := func(read bool) string {
@@ -381,7 +391,17 @@ func ExecLock(c CaseLock) (res *vkit.Result) {
 		return nil
 	}
 	take := func(in *lockInst, k lk) (rel func(), f *vkit.Failure) {
-		wrel, err := in.wide.acquire(k.v, k.read)
+		var wrel func()
+		var err error
+		if k.one {
+			if r, ok := in.wide.multi([]interface{}{k.v}, k.read); ok {
+				wrel = r
+				res.Class("key-held-through-a-list-of-one-key")
+			}
+		}
+		if wrel == nil {
+			wrel, err = in.wide.acquire(k.v, k.read)
+		}
 		if err != nil {
 			return nil, &vkit.Failure{Site: c.Fam + "/acquire", Msg: fmt.Sprintf("%s: %s acquire of %v, which nobody holds, failed: %v", in.where(), mode(k.read), k.key, err)}
 		}
@@ -423,6 +443,23 @@ func ExecLock(c CaseLock) (res *vkit.Result) {
 		if f := checkHeld(first, k, note); f != nil {
 			res.Fail = f
 			return res
+		}
+		if k.one && k.read {
+			// the same key once more, through the single-key entry point: readers share, and it is one key
+			doing = fmt.Sprintf("%s: RLock of %v while RLocks of the list of that one key holds it", first.where(), k.key)
+			rel1, err := first.wide.acquire(k.v, true)
+			if err != nil {
+				res.Fail = &vkit.Failure{Site: c.Fam + "/acquire", Msg: fmt.Sprintf("%s: %v", doing, err)}
+				return res
+			}
+			if n := first.wide.entries(); n != 1 {
+				return res.Failf(c.Fam+"/entries", "%s: the structure holds %d entries, one key is in use (the single-key call and the one-key list do not agree on where the key lives)", doing, n)
+			}
+			if r, w, present, ok := first.wide.counts(k.v); ok && (!present || r != 2 || w != 0) {
+				return res.Failf(c.Fam+"/counts", "%s: the key's entry reads present=%v readers=%d writers=%d, want 2 readers", doing, present, r, w)
+			}
+			rel1()
+			res.Class("two-readers-through-both-entry-points")
 		}
 		if second != nil && (!second.xhash || k.key.xhashOK()) {
 			doing = fmt.Sprintf("%s: %s acquire of %v while the same key is held on %s", second.where(), mode(k.read), k.key, first.where())
